@@ -126,7 +126,10 @@ def r11_2(ctx):
     ctx.floor("R11.2", "stores into result slots", len(ims), 1)
     from ..analysis import option_test_edges
     guard = None
-    for b, t, t_edge, f_edge, clo in option_test_edges(prog, f, ("is_none",)):
+    tests = [(x, False) for x in option_test_edges(prog, f, ("is_none",))] + [(x, True) for x in option_test_edges(prog, f, ("is_some",)) if x[4] is None]
+    for (b, t, t_edge, f_edge, clo), negated in tests:
+        if negated:
+            t_edge, f_edge = f_edge, t_edge   # the slot is empty on the false edge of is_some()
         if clo is None:
             if "LazyValue" not in " ".join(t.get("rgargs") or t.get("gargs") or []):
                 continue
